@@ -2533,6 +2533,36 @@ def same_settings_rule(prog, rep, R):
 CONV_RS = "pasfmt::<impl core::convert::From<&pasfmt::FormattingConfig> for pasfmt_core::lang::ReconstructionSettings>::from"
 CONV_OLF = "pasfmt::<impl core::convert::From<&pasfmt::FormattingConfig> for pasfmt_core::rules::optimising_line_formatter::OptimisingLineFormatterSettings>::from"
 DOCS = "<pasfmt::FormattingConfig as pasfmt_orchestrator::command_line::Configuration>::docs"
+def mul_pairs(prog, b, depth=1):
+    """(factor, factor) of every multiplication in b and — one level deep — in the workspace helpers it calls (an extracted width helper)"""
+    out = []
+    for bb, i, s in b.stmts():
+        if s["k"] == "assign" and s["rv"]["k"] == "binop" and s["rv"]["op"] in ("Mul", "MulWithOverflow"):
+            out.append(tuple(sorted((canon(b, s["rv"]["a"]), canon(b, s["rv"]["b"])))))
+    if depth:
+        for c in b.calls():
+            cb = prog.body(c.target or "")
+            if cb is not None and cb.crate == b.crate and cb.npath != b.npath and (cb.npath.rsplit("::", 1)[0] == b.npath.rsplit("::", 1)[0] or cb.npath.startswith(b.npath + "::")):
+                # the helper's factors are its parameters: what the call passes for them (`width(self.indentations, get_indentation_str())`)
+                sub = {"arg%d" % (i + 1): canon(b, a) for i, a in enumerate(c.args)}
+                for x, y in mul_pairs(prog, cb, depth - 1):
+                    out.append(tuple(sorted(re.sub(r"\barg(\d+)\b", lambda m: sub.get(m.group(0), m.group(0)), f) for f in (x, y))))
+    return sorted(out)
+
+
+def measured_indentation_pairs_counters_with_their_strings(prog, rep, R):
+    """C10.c (measure part) = C11.p — the width the wrapper assumes for a line's leading whitespace is `indentations x the configured
+    indentation string + continuations x the configured continuation string`: exactly two products, each counter with its own string.  A
+    continuation counted as a fixed number of indentation levels measures right only under the default continuation_indents; with any other
+    value a continued line is taken to fit when it sticks out (or the reverse), and which width wraps further is no longer monotone."""
+    lw = prog.body(OLF + "types::LineWhitespace::len")
+    if rep.check(lw is not None, R, "anchor:LineWhitespace::len", "LineWhitespace::len not found"):
+        mp = mul_pairs(prog, lw)
+        ok = len(mp) == 2 and any("indentations" in a + b and "get_indentation_str" in a + b for a, b in mp) and any("continuations" in a + b and "get_continuation_str" in a + b for a, b in mp) \
+            and not any(("continuations" in a + b and "get_indentation_str" in a + b) or ("indentations" in a + b and "get_continuation_str" in a + b) for a, b in mp)
+        rep.check(ok, R, "AGREE:measure-width", "LineWhitespace::len pairs counters and strings as %s" % mp, instance={"pairs": mp})
+
+
 SERDE = ["<pasfmt::_::deserialize::__Visitor as serde::de::Visitor>::visit_map", "<pasfmt::_::deserialize::__Visitor as serde::de::Visitor>::visit_seq",  # derived: default for a missing field
          "pasfmt::_::<impl serde::ser::Serialize for pasfmt::FormattingConfig>::serialize"]  # derived Serialize under the __demo feature
 
@@ -2572,33 +2602,13 @@ def check_c10(prog, rep, tier, cfg):
     same_settings_rule(prog, rep, R)
     # ---------------------------------------------------------------- C10.c counter<->string pairing in every width computation
     R = "C10.c"
-    def mul_pairs(b, depth=1):
-        """(factor, factor) of every multiplication in b and — one level deep — in the workspace helpers it calls (an extracted width helper)"""
-        out = []
-        for bb, i, s in b.stmts():
-            if s["k"] == "assign" and s["rv"]["k"] == "binop" and s["rv"]["op"] in ("Mul", "MulWithOverflow"):
-                out.append(tuple(sorted((canon(b, s["rv"]["a"]), canon(b, s["rv"]["b"])))))
-        if depth:
-            for c in b.calls():
-                cb = prog.body(c.target or "")
-                if cb is not None and cb.crate == b.crate and cb.npath != b.npath and (cb.npath.rsplit("::", 1)[0] == b.npath.rsplit("::", 1)[0] or cb.npath.startswith(b.npath + "::")):
-                    # the helper's factors are its parameters: what the call passes for them (`width(self.indentations, get_indentation_str())`)
-                    sub = {"arg%d" % (i + 1): canon(b, a) for i, a in enumerate(c.args)}
-                    for x, y in mul_pairs(cb, depth - 1):
-                        out.append(tuple(sorted(re.sub(r"\barg(\d+)\b", lambda m: sub.get(m.group(0), m.group(0)), f) for f in (x, y))))
-        return sorted(out)
     nb = prog.body("pasfmt_core::defaults::reconstructor::DelphiLogicalLinesReconstructor::nonbreaking_ws_len")
     if rep.check(nb is not None, R, "anchor:nonbreaking_ws_len", "nonbreaking_ws_len not found"):
-        mp = mul_pairs(nb)
+        mp = mul_pairs(prog, nb)
         ok = len(mp) == 2 and any("continuations_before" in a + b and "get_continuation_str" in a + b for a, b in mp) and any("indentations_before" in a + b and "get_indentation_str" in a + b for a, b in mp) \
             and not any(("continuations_before" in a + b and "get_indentation_str" in a + b) or ("indentations_before" in a + b and "get_continuation_str" in a + b) for a, b in mp)
         rep.check(ok, R, "AGREE:cursor-width", "nonbreaking_ws_len pairs counters and strings as %s" % mp, instance={"pairs": mp})
-    lw = prog.body(OLF + "types::LineWhitespace::len")
-    if rep.check(lw is not None, R, "anchor:LineWhitespace::len", "LineWhitespace::len not found"):
-        mp = mul_pairs(lw)
-        ok = len(mp) == 2 and any("indentations" in a + b and "get_indentation_str" in a + b for a, b in mp) and any("continuations" in a + b and "get_continuation_str" in a + b for a, b in mp) \
-            and not any(("continuations" in a + b and "get_indentation_str" in a + b) or ("indentations" in a + b and "get_continuation_str" in a + b) for a, b in mp)
-        rep.check(ok, R, "AGREE:measure-width", "LineWhitespace::len pairs counters and strings as %s" % mp, instance={"pairs": mp})
+    measured_indentation_pairs_counters_with_their_strings(prog, rep, R)
     # reconstruct and try_rewrite_string pair them through for_each closures (checked in C08.a / C12.d); here: who calls the string getters
     for g, okb in (("get_indentation_str", None), ("get_continuation_str", None)):
         cs = sorted({c.body.npath.split("::{closure")[0] for c in prog.who_calls(RS + "::" + g) if c.body.crate.startswith("pasfmt") and nondebug(c.body.npath)})
@@ -2857,6 +2867,7 @@ def check_c11(prog, rep, tier, cfg):
     line_end_follows_child_lines(prog, rep, "C11.m")
     returns_to_the_indifferent_decision_requeue_both(prog, rep, "C11.n")
     continuing_token_is_measured_from_the_last_child_line(prog, rep, "C11.o")
+    measured_indentation_pairs_counters_with_their_strings(prog, rep, "C11.p")
     # C11.l — what is compared with wrap_column is measured in one unit everywhere (shared with C03.g): a line measured in characters at one
     # place and in bytes at another fits by one measure and sticks out by the other, and which one decides depends on the width
     width_measures_agree(prog, rep, "C11.l")
